@@ -24,7 +24,9 @@ known to leave the property (F07b, F07c, F07d, F07g, F07h); the `…_partial` th
 runs that raised none.
 
 What is NOT modelled: xattrs, times, hard links, device nodes, the "hidden files before the data
-section" rule, sticky/set-id bits (only the nine permission bits are observed).
+section" rule.  Of a header's mode field only the nine permission bits reach the model's tree and the db;
+the set-id / sticky bits and the `S_IF*` type bits are carried by `Entry.mode` and proved irrelevant
+(`stepEntry_mode_field` in Proofs/C07.lean).
 -/
 namespace Apko.Conflict
 open Apko Apko.Path
@@ -243,6 +245,34 @@ structure St where
   deriving DecidableEq, Repr
 
 def permOf (e : Entry) : Nat := e.mode % 512
+
+/-! ## the mode FIELD of a header
+
+`Entry.mode` is the whole mode field of the tar header.  Besides the nine permission bits it may carry the
+set-id / sticky bits (`0o7000`) and the `S_IF*` file-type bits (`Mode &^ 0o7777`: c_ISREG `0o100000`, c_ISDIR
+`0o40000`, c_ISLNK `0o120000`, c_ISCHR `0o20000`, c_ISBLK `0o60000`, c_ISFIFO `0o10000`, c_ISSOCK `0o140000`),
+which `tar.Header.FileInfo().Mode()` decodes in addition to the typeflag.  What an entry IS is decided by its
+typeflag (`Entry.kind`) on every path of the installation: tarfs masks the field (`entryMode`,
+`Generated.stmtsEntryMode`), `writeOneFile` clears the type bits of the mode it creates the file with
+(`Generated.streamCreateMode`), directories are made with `.Perm()`, and the ownership test of both install
+loops reads the typeflag (`Generated.ownerTests`). -/
+
+/-- the file-type bits of the mode field (`Mode &^ 0o7777`) -/
+def modeTypeBits (e : Entry) : Nat := e.mode / 4096 * 4096
+
+/-- the six values of the type bits that `FileInfo().Mode()` turns into a `fs.ModeType` bit -/
+def fileInfoTypeBits : List Nat := [0o40000, 0o10000, 0o120000, 0o60000, 0o20000, 0o140000]
+
+/-- `tar.Header.FileInfo().Mode().IsRegular()` (= `expandapk`'s `Entry.Type().IsRegular()`): typeflag '0' AND
+no decoded type bit in the mode field.  NOT what the code asks — see `ownerTest`. -/
+def fileInfoRegular (e : Entry) : Bool := e.kind == .reg && !fileInfoTypeBits.contains (modeTypeBits e)
+
+/-- the ownership test of the install loops: `installed && file.Header.Typeflag == tar.TypeReg`
+(`lazilyInstallAPKFiles`), `installed` inside `case tar.TypeReg` (`installAPKFiles`) -/
+def ownerTest (installed : Bool) (e : Entry) : Bool := installed && e.kind == .reg
+
+/-- the entry with another mode field -/
+def Entry.withMode (e : Entry) (m : Nat) : Entry := { e with mode := m }
 
 def fileNode (i : Nat) (e : Entry) : Node := .file e.sum (permOf e) (some i) (e.size == 0)
 
